@@ -136,6 +136,11 @@ def run(ctx):
     for i in range(5 if ctx.quick else 100):
         kb = [("new", "new+state"), ("set", "set+state", "reopen"), ("claim_oldest", "claim_id"), ("sequence", "new_in_epic"), ("plan", "prune", "compact")][i % 5]
         explore2.explore(ctx, "C11", r.fork(), kindsA=("plan",), kindsB=kb, max_points=(7 if ctx.quick else 40), state_cmds=6)
+    # the rewrite plan does (temporary file, fsync, rename) when the operating system refuses or cuts short a write: plan must then fail and the
+    # old log stay — a swallowed error would rename a truncated file over everything that was recorded before
+    from . import c10
+    for i in range(3 if ctx.quick else 40):
+        c10.io_faults(ctx, r.fork(), prop="C11", torn=(i % 3 == 2), only=("plan",))
     ctx.cov["rule"] = ("two-process schedules plan ∥ writer (plan parked after each of its store system calls; the other runs to completion or holds the lock): serial equivalence; "
                        "seeded plan documents (DAGs and non-DAGs up to 6 tasks, duplicate/self/dangling/blank after, blank or missing fields, unknown keys, two values) "
                        "applied to pre-existing stores; oracle: independent validity spec ⇔ accepted; reply ⊆ next read; one epic + n todo tasks; edges; old items untouched")
